@@ -135,3 +135,81 @@ class Ctx:
             print("%s: %d obligations, %d discharged, %d violations, %d known findings, %d undecided sites, %d analysis-broken; %.1fs [%s]"
                   % (self.pid, nob, ndis, len(self.violations), len(self.known_hits), len(self.undecided), len(self.brokens), wall, rules_txt))
         return code
+
+
+# ---------------------------------------------------------------- result cache for expensive, deterministic rule instances
+class Recorder:
+    """records the obligations a rule instance reports so that they can be replayed into any property's context"""
+    def __init__(self, tier="quick"):
+        self.tier = tier
+        self.events = []
+
+    def ok(self, rule, instance, detail=None):
+        self.events.append(["ok", rule, instance, detail])
+
+    def violation(self, rule, key, msg, where="", data=None):
+        self.events.append(["violation", rule, key, msg, where, data])
+
+    def broken(self, rule, msg):
+        self.events.append(["broken", rule, msg])
+
+    def undecided_site(self, rule, what):
+        self.events.append(["undecided", rule, what])
+
+    def note(self, k, v):
+        self.events.append(["note", k, v])
+
+
+def replay(ctx, events):
+    for e in events:
+        if e[0] == "ok":
+            ctx.ok(e[1], e[2], e[3])
+        elif e[0] == "violation":
+            ctx.violation(e[1], e[2], e[3], e[4], e[5])
+        elif e[0] == "broken":
+            ctx.broken(e[1], e[2])
+        elif e[0] == "undecided":
+            ctx.undecided_site(e[1], e[2])
+        elif e[0] == "note":
+            ctx.note(e[1], e[2])
+
+
+_ENGINE_HASH = None
+
+
+def engine_hash():
+    """hash of the rule engines themselves: an edit to vlib/ or rules/ invalidates cached results"""
+    global _ENGINE_HASH
+    if _ENGINE_HASH is None:
+        h = hashlib.sha256()
+        for sub in ("vlib", "rules"):
+            d = os.path.join(VERIF, sub)
+            for fn in sorted(os.listdir(d)):
+                p = os.path.join(d, fn)
+                if os.path.isfile(p) and not fn.endswith(".pyc"):
+                    h.update(fn.encode()); h.update(open(p, "rb").read())
+        _ENGINE_HASH = h.hexdigest()[:16]
+    return _ENGINE_HASH
+
+
+def cached(module_path, name, tier, fn):
+    """events of a deterministic rule instance for the module at module_path (the cache lives next to the module and dies with the
+    build directory whenever /repo's sources change; it is additionally keyed by the engine's own sources)"""
+    d = os.path.join(os.path.dirname(module_path), "rcache")
+    f = os.path.join(d, "%s-%s-%s.json" % (re.sub(r"[^A-Za-z0-9_.-]", "_", name), tier, engine_hash()))
+    if os.path.exists(f):
+        try:
+            return json.load(open(f))
+        except Exception:
+            pass
+    rec = Recorder(tier)
+    fn(rec)
+    ev = json.loads(json.dumps(rec.events, default=str))
+    try:
+        os.makedirs(d, exist_ok=True)
+        tmp = f + ".%d.tmp" % os.getpid()
+        json.dump(ev, open(tmp, "w"))
+        os.replace(tmp, f)
+    except OSError:
+        pass
+    return ev
